@@ -826,7 +826,9 @@ func (e *Engine) MessageReceived(ctx context.Context, p peer.ID, m bsmsg.BitSwap
 
 		// Check if this is a want-block or a have-block that can be converted
 		// to a want-block.
-		isWantBlock := blockSize != 0 && e.sendAsBlock(entry.WantType, blockSize)
+		// (With want-have replacement disabled the size of a want-have's block
+		// is not looked up, and a present block may have length zero.)
+		isWantBlock := entry.WantType == pb.Message_Wantlist_Block || (!noReplace && e.sendAsBlock(entry.WantType, blockSize))
 
 		log.Debugw("Bitswap engine: block found", "local", e.self, "from", p, "cid", c, "isWantBlock", isWantBlock)
 
